@@ -142,6 +142,18 @@ func oracle(c Case, o Obs) (string, string) {
 	if want := p[:min(len(p), room)]; !bytes.Equal(o.ReqPayload, want) {
 		return "request-payload", fmt.Sprintf("request carried %d payload bytes, want the first %d of %d", len(o.ReqPayload), len(want), len(p))
 	}
+	// the request the server holds must stay what it was for the whole session
+	for _, seen := range o.ReqLater {
+		if seen.Panic != "" {
+			return "request-mutated:" + seen.When + ":panic", seen.Panic
+		}
+		if !bytes.Equal(seen.Addr, o.ReqAddr) {
+			return "request-mutated:addr:" + seen.When, fmt.Sprintf("target address in the ConnRequest read %x right after HandleStream and %x %s", o.ReqAddr, seen.Addr, seen.When)
+		}
+		if seen.User != o.ReqUser {
+			return "request-mutated:user:" + seen.When, fmt.Sprintf("username %q right after HandleStream, %q %s", o.ReqUser, seen.User, seen.When)
+		}
+	}
 	if k, d := streamOracle("c2s", c.C2SStream(), len(o.ReqPayload), o.SOps, true); k != "" {
 		return k, d
 	}
@@ -447,6 +459,15 @@ func evalCases(cases []Case, o *common.Options, rep *common.Report, probe bool) 
 		}
 		if i < 2 && !probe {
 			rep.Sample(map[string]any{"case": c, "script": r.sc.Lines, "impl": r.sc.Expect})
+		}
+		for _, seen := range obs.ReqLater {
+			if seen.When == "after-server-write" && len(obs.S2CWrites) > 0 && len(obs.ReqPayload) > 0 {
+				if bytes.Equal(seen.Payload, obs.ReqPayload) {
+					rep.Count("payload-slice-after-server-write=unchanged")
+				} else {
+					rep.Count("payload-slice-after-server-write=overwritten(borrowed buffer)")
+				}
+			}
 		}
 		key, detail := oracle(c, obs)
 		if key != "" {
